@@ -4,7 +4,7 @@
     (id, timestamp); [order] is the iteration order of the hash map, about which only
     [forall l e, In e (order l) <-> In e l] is assumed. *)
 From Coq Require Import List NArith.
-From PV Require Import Model.SecretBundle Proofs.SecretBundle Oracle.C36.
+From PV Require Import Model.SecretBundle Proofs.SecretBundle Oracle.C36 Proofs.OracleC36.
 Import ListNotations.
 Local Open Scope N_scope.
 
@@ -103,3 +103,21 @@ Proof.
   split; [vm_compute; discriminate|vm_compute; reflexivity].
 Qed.
 Print Assumptions C36_generated_strictly_later_refuted.
+
+(** Soundness of the boolean oracle pieces evaluated on the implementation's observations. *)
+Theorem C36_oracle_is_max_sound :
+  forall lat content,
+    is_max lat content = true ->
+    match lat with
+    | Some i => exists t, In (i, t) content /\ forall e, In e content -> lex_le e (i, t)
+    | None => forall e, In e content -> sid e = 0 /\ sts e = 0
+    end.
+Proof. exact is_max_sound. Qed.
+Print Assumptions C36_oracle_is_max_sound.
+
+Theorem C36_oracle_gen_ok_sound :
+  forall prev lat content,
+    gen_ok prev lat content = true ->
+    exists e, In e content /\ lat = Some (sid e) /\ forall p, In p prev -> lex_lt p e.
+Proof. exact gen_ok_sound. Qed.
+Print Assumptions C36_oracle_gen_ok_sound.
